@@ -29,3 +29,5 @@ use executor::*;
 pub use imp::*;
 use internal_events::*;
 use script_helpers::*;
+#[cfg(nextest_verif)]
+pub use script_helpers::verif_script_helpers;
